@@ -144,3 +144,39 @@ Proof.
     + rewrite compose_numeric_ok by (try assumption; rewrite Hn; apply width_fits; lia). cbn [bind].
       unfold enc, enc_uint. cbn [is_big]. rewrite Hn, Nat2Z.id. split; intros Q; inversion Q; reflexivity.
 Qed.
+
+(* CertificateRequest and CertificateStatus: the specification decodes what it encodes, whatever follows the message *)
+Lemma dec_enc_certificate_request types sigalgs cas b s :
+  Forall (fun z => 0 <= z < 256) types ->
+  match sigalgs with Some l => Forall (fun z => 0 <= z < 65536) l | None => True end ->
+  enc_certificate_request types sigalgs cas = Some b ->
+  dec_certificate_request (match sigalgs with Some _ => true | None => false end) (b ++ s) = Some ((types, sigalgs, cas), s).
+Proof.
+  intros Ft Fs. unfold enc_certificate_request.
+  destruct (enc_uint_vec 1 1 255 types) as [t|] eqn:Et; cbn [obind]; [|discriminate].
+  destruct (match sigalgs with None => Some [] | Some l => enc_uint_vec 2 2 65534 l end) as [sa|] eqn:Es; cbn [obind]; [|discriminate].
+  destruct (enc_opaque_items 1 65535 cas) as [items|] eqn:Ei; cbn [obind]; [|discriminate].
+  destruct (enc_opaque 0 65535 items) as [c|] eqn:Ec; cbn [obind]; [|discriminate].
+  intros Eh. unfold dec_certificate_request.
+  rewrite (dec_enc_handshake 13 _ b s ltac:(lia) Eh). cbn [obind].
+  rewrite (dec_enc_uint_vec 1 1 255 types t (sa ++ c) ltac:(lia) ltac:(lia)); [|exact Ft|exact Et]. cbn [obind].
+  assert (Ec' : dec_opaque 0 65535 c = Some (items, [])).
+  { pose proof (dec_enc_opaque 0 65535 items c [] ltac:(lia) Ec) as D. rewrite app_nil_r in D. exact D. }
+  assert (Ei' : dec_opaque_items 1 65535 (S (length items)) items = Some cas).
+  { apply dec_enc_opaque_items; [lia|exact Ei|lia]. }
+  destruct sigalgs as [l|].
+  - rewrite (dec_enc_uint_vec 2 2 65534 l sa c ltac:(lia) ltac:(lia)); [|exact Fs|exact Es]. cbn [obind].
+    rewrite Ec'. cbn [obind]. rewrite Ei'. reflexivity.
+  - injection Es as <-. cbn [app obind]. rewrite Ec'. cbn [obind]. rewrite Ei'. reflexivity.
+Qed.
+
+Lemma dec_enc_certificate_status ty resp b s : 0 <= ty < 256 ->
+  enc_certificate_status ty resp = Some b -> dec_certificate_status (b ++ s) = Some ((ty, resp), s).
+Proof.
+  intros Ht. unfold enc_certificate_status.
+  destruct (enc_opaque 1 16777215 resp) as [r|] eqn:Er; cbn [obind]; [|discriminate].
+  intros Eh. unfold dec_certificate_status.
+  rewrite (dec_enc_handshake 22 _ b s ltac:(lia) Eh). cbn [obind].
+  rewrite dec_enc_uint by (change (256 ^ Z.of_nat 1) with 256; lia). cbn [obind].
+  pose proof (dec_enc_opaque 1 16777215 resp r [] ltac:(lia) Er) as D. rewrite app_nil_r in D. rewrite D. reflexivity.
+Qed.
